@@ -8,6 +8,7 @@
 import AeicProofs.Lemmas.GridOnLine
 import AeicProofs.Lemmas.GridTaxi
 import AeicProofs.Lemmas.GridShape
+import AeicProofs.Lemmas.KernelBridge8
 
 namespace C05
 
@@ -201,6 +202,90 @@ theorem crossLat_example :
     simp only [Rules.repaired, if_true, lit_real, edgeLon]
     norm_num
   · simp [crossLat, Rules.asIs]
+
+/-! ### the same about the SOURCE TEXT of `gridding/grid.py`
+
+`Kern.grid_*` are regenerated from the working tree on every run; `Lemmas/KernelBridge8.lean` proves them equal to the model. -/
+
+open KernelBridge8 in
+/-- **The crossing latitude the source computes lies on the crossing segment**: on the straight map line from the start point
+    of the crossing segment to its unwrapped end point (first claim, `crossLat_on_line` for the generated definition), and
+    between the two end latitudes whenever the antimeridian lies between the start longitude and the unwrapped end longitude. -/
+theorem src_crossing_on_segment (lats lons : List ℝ) (idx : Nat) (neg : Bool)
+    (hd : (if sgn neg = -1 then getAt lons (idx + 1) + 2 * PI else getAt lons (idx + 1) - 2 * PI) - getAt lons idx ≠ 0) :
+    (Kern.grid_cross_lat lats lons idx ((sgn neg : Int) : ℝ) - getAt lats idx)
+        * ((if sgn neg = -1 then getAt lons (idx + 1) + 2 * PI else getAt lons (idx + 1) - 2 * PI) - getAt lons idx)
+      = (edgeLon PI (sgn neg) - getAt lons idx) * (getAt lats (idx + 1) - getAt lats idx) ∧
+    (Between (getAt lons idx) (if sgn neg = -1 then getAt lons (idx + 1) + 2 * PI else getAt lons (idx + 1) - 2 * PI)
+        (edgeLon PI (sgn neg)) →
+      Between (getAt lats idx) (getAt lats (idx + 1)) (Kern.grid_cross_lat lats lons idx ((sgn neg : Int) : ℝ))) := by
+  rw [cross_lat]
+  exact ⟨crossLat_on_line PI (sgn neg) _ _ _ _ hd, crossLat_between PI (sgn neg) _ _ _ _ hd⟩
+
+open KernelBridge8 in
+/-- **The two parts the source builds meet at the antimeridian**: the first part ends at the inserted point on the side the
+    trajectory comes from (`±π`), the second part starts at the same latitude on the other side (`∓π`), and both keep the
+    altitude, time and state of the START of the crossing segment for the inserted point (the property's "state from the start
+    point of the piece"). -/
+theorem src_parts_meet_at_antimeridian (lats lons alts times sv iv : List ℝ) (idx : Nat) (neg : Bool) (l1 l2 ltot : ℝ) :
+    let s := ((sgn neg : Int) : ℝ)
+    (Kern.grid_split_first_lats lats lons alts times sv iv idx s l1 ltot).getLast? = some (Kern.grid_cross_lat lats lons idx s) ∧
+    (Kern.grid_split_second_lats lats lons alts times sv iv idx s l2 ltot).head? = some (Kern.grid_cross_lat lats lons idx s) ∧
+    (Kern.grid_split_first_lons lats lons alts times sv iv idx s l1 ltot).getLast? = some (edgeLon PI (sgn neg)) ∧
+    (Kern.grid_split_second_lons lats lons alts times sv iv idx s l2 ltot).head? = some (-(edgeLon PI (sgn neg))) ∧
+    (Kern.grid_split_first_alts lats lons alts times sv iv idx s l1 ltot).getLast? = some (getAt alts idx) ∧
+    (Kern.grid_split_second_alts lats lons alts times sv iv idx s l2 ltot).head? = some (getAt alts idx) ∧
+    (Kern.grid_split_first_times lats lons alts times sv iv idx s l1 ltot).getLast? = some (getAt times idx) ∧
+    (Kern.grid_split_second_times lats lons alts times sv iv idx s l2 ltot).head? = some (getAt times idx) ∧
+    (Kern.grid_split_first_state lats lons alts times sv iv idx s l1 ltot).getLast? = some (getAt sv idx) ∧
+    (Kern.grid_split_second_state lats lons alts times sv iv idx s l2 ltot).head? = some (getAt sv idx) := by
+  have h1 := split_first lats lons alts times sv iv idx neg l1 ltot
+  have h2 := split_second lats lons alts times sv iv idx neg l2 ltot
+  simp only at h1 h2
+  obtain ⟨a1, a2, a3, a4, a5, _⟩ := h1
+  obtain ⟨b1, b2, b3, b4, b5, _⟩ := h2
+  simp only [splitFirst, splitSecond, trajOf, Option.map, List.map, Option.some.injEq, List.cons.injEq, and_true] at a1 a2 a3 a4 a5 b1 b2 b3 b4 b5
+  refine ⟨?_, ?_, ?_, ?_, ?_, ?_, ?_, ?_, ?_, ?_⟩
+  · rw [← a1]; simp
+  · rw [← b1]; simp
+  · rw [← a2]; simp
+  · rw [← b2]; simp
+  · rw [← a3]; simp
+  · rw [← b3]; simp
+  · rw [← a4]; simp
+  · rw [← b4]; simp
+  · rw [← a5]; simp
+  · rw [← b5]; simp
+
+open KernelBridge8 in
+/-- the antimeridian test of the source is the model's `crossSign`; and the split functions are the model's -/
+theorem src_cross_sign_is_model (A : String → ℝ) (lon1 lon2 : ℝ) :
+    Kern.grid_cross_sign A lon1 lon2 = ((crossSign PI lon1 lon2 : Int) : ℝ) := cross_sign A lon1 lon2
+
+open KernelBridge8 in
+/-- a segment is reported as crossing exactly when its two longitudes differ by more than π, with the sign of the jump -/
+theorem src_cross_sign_cases (A : String → ℝ) (lon1 lon2 : ℝ) :
+    (|lon2 - lon1| ≤ PI → Kern.grid_cross_sign A lon1 lon2 = 0) ∧
+    (PI < lon2 - lon1 → Kern.grid_cross_sign A lon1 lon2 = 1) ∧
+    (lon2 - lon1 < -PI → Kern.grid_cross_sign A lon1 lon2 = -1) := by
+  have hpi : (0 : ℝ) < PI := by simp only [PI, lit_real]; norm_num
+  have habs : sabs (lon2 - lon1) = |lon2 - lon1| := by
+    unfold sabs; simp only [zero_real]; split_ifs with h
+    · exact (abs_of_neg h).symm
+    · exact (abs_of_nonneg (not_lt.mp h)).symm
+  simp only [Kern.grid_cross_sign, ssign, zero_real, one_real, habs]
+  change (_ → _ * (if PI < _ then _ else _) = 0) ∧ (_ → _ * (if PI < _ then _ else _) = 1) ∧ (_ → _ * (if PI < _ then _ else _) = -1)
+  simp only [lit_real]
+  refine ⟨fun h => ?_, fun h => ?_, fun h => ?_⟩
+  · rw [if_neg (not_lt.mpr h)]; simp
+  · have h0 : 0 < lon2 - lon1 := lt_trans hpi h
+    have h1 : PI < |lon2 - lon1| := by rw [abs_of_pos h0]; exact h
+    rw [if_pos h1]
+    split_ifs <;> first | (exfalso; linarith) | norm_num
+  · have h0 : lon2 - lon1 < 0 := by linarith
+    have h1 : PI < |lon2 - lon1| := by rw [abs_of_neg h0]; linarith
+    rw [if_pos h1]
+    split_ifs <;> first | (exfalso; linarith) | norm_num
 
 /-! ### non-vacuity: the hypotheses are satisfiable -/
 
